@@ -47,12 +47,12 @@ def grammar(paths):
         },
         "store_metadata": {"valid": {"pid": "held", "metadata": paths["doc"], "format_id": "fmt"},
                            "bad": {"pid": BAD_ID, "metadata": BAD_DATA, "format_id": [" ", "\t"]}},
-        "retrieve_object": {"valid": {"pid": "held"}, "bad": {"pid": BAD_ID + ["unknown-pid"]}},
+        "retrieve_object": {"valid": {"pid": "held"}, "bad": {"pid": BAD_ID + ["unknown-pid", "meta-only"]}},
         "retrieve_metadata": {"valid": {"pid": "held", "format_id": None}, "bad": {"pid": BAD_ID, "format_id": [" "]}},
-        "delete_object": {"valid": {"pid": "held"}, "bad": {"pid": BAD_ID + ["unknown-pid"]}},
+        "delete_object": {"valid": {"pid": "held"}, "bad": {"pid": BAD_ID + ["unknown-pid", "meta-only"]}},
         "delete_metadata": {"valid": {"pid": "held", "format_id": None}, "bad": {"pid": BAD_ID, "format_id": [" "]}},
         "get_hex_digest": {"valid": {"pid": "held", "algorithm": "sha256"},
-                           "bad": {"pid": BAD_ID + ["unknown-pid"], "algorithm": BAD_ID + BAD_ALGO}},
+                           "bad": {"pid": BAD_ID + ["unknown-pid", "meta-only"], "algorithm": BAD_ID + BAD_ALGO}},
     }
     return g
 
@@ -75,6 +75,8 @@ def _method(args):
         store.store_object("other", paths["doc"])
         store.store_metadata("held", paths["doc"])
         store.store_metadata("held", paths["doc"], "fmt")
+        store.store_metadata("meta-only", paths["doc"])  # metadata arrived before the object: the pid is unknown
+        store.store_metadata("meta-only", paths["doc"], "fmt")
         store.store_object(None, paths["data2"])  # an unreferenced object
     g = grammar(paths)[method]
     res, n, classes = [], 0, set()
